@@ -496,14 +496,18 @@ type mbSpec struct {
 	name     string
 	signers2 []string // keys signing header 2 (header 1 is signed by all three)
 	mut      string
+	vals2    []string // validator set of header 2 if it differs from the launch set (lunatic attack)
 }
 
-func (w *evWorker) header(chainID string, height int64, t time.Time, appHash string, round int32, vals []string, signers []string, trusted clienttypes.Height, corrupt string) *ibctm.Header {
-	var vs []*cmttypes.Validator
-	for _, k := range vals {
-		vs = append(vs, cmtVal(w.keys[k], w.launchPower[k]))
+func (w *evWorker) header(chainID string, height int64, t time.Time, appHash string, round int32, vals []string, signers []string, trusted clienttypes.Height, corrupt string, trustedVals ...string) *ibctm.Header {
+	mkSet := func(ks []string) *cmttypes.ValidatorSet {
+		var vs []*cmttypes.Validator
+		for _, k := range ks {
+			vs = append(vs, cmtVal(w.keys[k], w.launchPower[k]))
+		}
+		return cmttypes.NewValidatorSet(vs)
 	}
-	vset := cmttypes.NewValidatorSet(vs)
+	vset := mkSet(vals)
 	h := cmttypes.Header{
 		Version: cmtversion.Consensus{Block: 11, App: 2}, ChainID: chainID, Height: height, Time: t,
 		LastBlockID:    blockID("last"),
@@ -534,7 +538,13 @@ func (w *evWorker) header(chainID string, height int64, t time.Time, appHash str
 	}
 	vp, _ := vset.ToProto()
 	vp.TotalVotingPower = vset.TotalVotingPower()
-	return &ibctm.Header{SignedHeader: sh, ValidatorSet: vp, TrustedHeight: trusted, TrustedValidators: vp}
+	tp := vp
+	if len(trustedVals) > 0 {
+		ts := mkSet(trustedVals)
+		tp, _ = ts.ToProto()
+		tp.TotalVotingPower = ts.TotalVotingPower()
+	}
+	return &ibctm.Header{SignedHeader: sh, ValidatorSet: vp, TrustedHeight: trusted, TrustedValidators: tp}
 }
 
 // commitHeader signs h with the given subset of the validator set (absent validators get an
@@ -567,17 +577,22 @@ func (w *evWorker) buildMisbehaviour() {
 	p := w.p
 	launchKeys := []string{"pk0", "k1", "kz"}
 	specs := []mbSpec{
-		{"equivocation(all)", launchKeys, ""},
-		{"equivocation(pk0,kz)", []string{"pk0", "kz"}, ""},
-		{"equivocation(k1,kz)", []string{"k1", "kz"}, ""},
-		{"other-client", launchKeys, "other-client"},
-		{"other-chain-id", launchKeys, "other-chain-id"},
-		{"heights-differ", launchKeys, "heights-differ"},
-		{"below-min-height", launchKeys, "below-min-height"},
-		{"amnesia", launchKeys, "amnesia"},
-		{"bad-sig(kz)", launchKeys, "bad-sig"},
-		{"identical-headers", launchKeys, "identical"},
-		{"unknown-consumer", launchKeys, "unknown-consumer"},
+		{name: "equivocation(all)", signers2: launchKeys},
+		{name: "equivocation(pk0,kz)", signers2: []string{"pk0", "kz"}},
+		{name: "equivocation(k1,kz)", signers2: []string{"k1", "kz"}},
+		// header 2 carries its own validator set {k1,kz} (a lunatic attack): positions in its commit do not
+		// line up with positions in header 1's set; the culprits are still exactly those who signed both
+		{name: "lunatic(k1,kz)", signers2: []string{"k1", "kz"}, vals2: []string{"k1", "kz"}},
+		{name: "lunatic(pk0,kz)", signers2: []string{"pk0", "kz"}, vals2: []string{"pk0", "kz"}},
+		{name: "lunatic(pk0,k1)", signers2: []string{"pk0", "k1"}, vals2: []string{"pk0", "k1"}},
+		{name: "other-client", signers2: launchKeys, mut: "other-client"},
+		{name: "other-chain-id", signers2: launchKeys, mut: "other-chain-id"},
+		{name: "heights-differ", signers2: launchKeys, mut: "heights-differ"},
+		{name: "below-min-height", signers2: launchKeys, mut: "below-min-height"},
+		{name: "amnesia", signers2: launchKeys, mut: "amnesia"},
+		{name: "bad-sig(kz)", signers2: launchKeys, mut: "bad-sig"},
+		{name: "identical-headers", signers2: launchKeys, mut: "identical"},
+		{name: "unknown-consumer", signers2: launchKeys, mut: "unknown-consumer"},
 	}
 	for _, s := range specs {
 		s := s
@@ -615,7 +630,11 @@ func (w *evWorker) buildMisbehaviour() {
 			}
 			t := now.Add(-time.Second)
 			h1 := w.header(chain, h1h, t, "main", 0, launchKeys, launchKeys, trusted, "")
-			h2 := w.header(chain, h2h, t, app2, round2, launchKeys, s.signers2, trusted, corrupt)
+			vals2 := launchKeys
+			if len(s.vals2) > 0 {
+				vals2 = s.vals2
+			}
+			h2 := w.header(chain, h2h, t, app2, round2, vals2, s.signers2, trusted, corrupt, launchKeys...)
 			msg := &providertypes.MsgSubmitConsumerMisbehaviour{Submitter: p.Users[0].Addr.String(), ConsumerId: cid,
 				Misbehaviour: &ibctm.Misbehaviour{ClientId: clientID, Header1: h1, Header2: h2}}
 			var pre [3]evSnap
